@@ -1,0 +1,29 @@
+//go:build verif
+
+package isobmff
+
+import (
+	"bufio"
+	"io"
+)
+
+// VerifBoxChain builds a chain of nested boxes over br — remains[0] is the remaining length of the innermost box, the
+// last element that of the outermost — and returns the innermost box as an io.Reader (box.Read) together with a
+// function reporting the current remaining length of every box of the chain, innermost first.
+func VerifBoxChain(br *bufio.Reader, remains []int) (io.Reader, func() []int) {
+	r := &Reader{br: br}
+	boxes := make([]*box, len(remains))
+	var outer *box
+	for i := len(remains) - 1; i >= 0; i-- {
+		b := &box{size: int64(remains[i]), remain: remains[i], outer: outer, reader: r}
+		boxes[i] = b
+		outer = b
+	}
+	return outer, func() []int {
+		out := make([]int, len(boxes))
+		for i, b := range boxes {
+			out[i] = b.remain
+		}
+		return out
+	}
+}
